@@ -210,7 +210,7 @@ class Check:
         return 0
 
     def _write_replay(self, sig, inst, count):
-        d = os.path.join(VERIF, "replays", self.pid)
+        d = os.path.join(os.environ.get("VERIF_REPLAY_DIR") or os.path.join(VERIF, "replays"), self.pid)
         os.makedirs(d, exist_ok=True)
         art = {"property": self.pid, "signature": sig, "instances_with_this_signature": count, "instance": inst}
         path = os.path.join(d, digest(art) + ".json")
@@ -235,7 +235,7 @@ class Check:
         ev = {"property_id": self.pid, "tier": self.tier, "seed": boot.SEED, "level": self.level,
               "coverage": cov, "assumptions": self.assumptions, "wall_s": round(time.time() - self.t0, 2),
               "violations": n_viol}
-        d = os.path.join(VERIF, "evidence")
+        d = os.environ.get("VERIF_EVIDENCE_DIR") or os.path.join(VERIF, "evidence")
         os.makedirs(d, exist_ok=True)
         with open(os.path.join(d, f"{self.pid}.json"), "w") as f:
             json.dump(ev, f, indent=1, sort_keys=True, default=_jd)
